@@ -284,13 +284,14 @@ def replay_selector(w):
         if p is None:
             return []
         n = int(p['components'].value)
-        return [(round(p['c%d_xo' % i].value, 6), round(p['c%d_yo' % i].value, 6), round(p['c%d_amp' % i].value, 9)) for i in range(n)]     # component order matters
+        return [(round(p['c%d_xo' % i].value, 6), round(p['c%d_yo' % i].value, 6), round(p['c%d_amp' % i].value, 9),
+                 round(float(p['c%d_amp' % i].min), 9), round(float(p['c%d_amp' % i].max), 9)) for i in range(n)]     # component order matters
     A = comps(data, curve)
     B = comps(-data, -curve)
-    mirror = [(x, y, -a) for x, y, a in B]
+    mirror = [(x, y, -a, -hi + 0.0, -lo + 0.0) for x, y, a, lo, hi in B]
     bad = A != mirror
     mixed = (data[real_np.isfinite(data)] > 0).any() and (data[real_np.isfinite(data)] < 0).any()
-    return bad, ('mixed-sign-island' if mixed else 'single-sign-island'), 'initial components %s vs mirrored components of the negated island %s' % (A, mirror)
+    return bad, ('mixed-sign-island' if mixed else 'single-sign-island'), 'initial components (xo, yo, amp, amp_min, amp_max) %s vs mirrored components of the negated island %s' % (A, mirror)
 
 
 def two_summit_witness(sign=-1):
